@@ -247,7 +247,15 @@ def ownership_part(ck, tier):
             newpt = np.array([2.0, 2.5, -1.0])
             a[0].replace_last(newpt)                        # as the tempering worker does: the point, then its log-probability
             a[0].probs[-1] = GaussPost(3)(newpt) * a[0].inv_temp
-            a[1]()
+            mode_ok = True
+            for phase in (0, 1):                            # right after the replacement, and after the next step
+                if phase:
+                    a[1]()
+                smp, prb = a[2]()
+                smp, prb = np.asarray(smp, dtype=float), np.asarray(prb, dtype=float)
+                md = np.asarray(a[0].mode(), dtype=float)
+                mode_ok = mode_ok and bool(np.array_equal(md, smp[int(np.argmax(prb))]) or
+                                           any(np.array_equal(md, smp[k]) and prb[k] == prb.max() for k in range(len(prb))))
             sb, pb_ = b[2]()
             post_b = GaussPost(shared["start"].size)
             ok_arrays = all(np.array_equal(shared[k], before[k]) for k in shared)
@@ -255,6 +263,25 @@ def ownership_part(ck, tier):
         except Exception as ex:
             ck.violation("replace_last / take_step raised", {"class": cls_name, "error": repr(ex)[:300]}, site=f"{cls_name}.replace_last")
             continue
+        try:
+            # the same on a chain with a history: a replacement that beats every recorded point, then one that is worse than all
+            for k in range(4):
+                a[1]()
+            for newpt in (np.linspace(0.3, 1.1, 3), np.array([9.0, -9.0, 9.0])):
+                a[0].replace_last(newpt.copy())
+                a[0].probs[-1] = GaussPost(3)(newpt) * a[0].inv_temp
+                for phase in (0, 1, 2):
+                    if phase:
+                        a[1]()
+                    smp, prb = a[2]()
+                    smp, prb = np.asarray(smp, dtype=float), np.asarray(prb, dtype=float)
+                    md = np.asarray(a[0].mode(), dtype=float)
+                    mode_ok = mode_ok and any(np.array_equal(md, smp[k]) and prb[k] == prb.max() for k in range(len(prb)))
+        except Exception as ex:
+            ck.violation("replace_last / take_step / mode raised", {"class": cls_name, "error": repr(ex)[:300]}, site=f"{cls_name}.replace_last")
+        if not mode_ok:
+            ck.violation("ModeIsArgmax: after the current point was replaced (as an exchange does) mode() is still a recorded sample of maximal recorded log-probability",
+                         {"class": cls_name}, site=f"{cls_name}.mode:after-replacement")
         if not ok_arrays:
             ck.violation("UserArraysUnchanged: the arrays the samplers were built from are left unchanged (after a replacement of the current point)",
                          {"class": cls_name, "start_before": before["start"], "start_after": shared["start"]}, site=f"{cls_name}.__init__:ownership")
